@@ -4,6 +4,7 @@ from .rules import n_totality as N
 from .rules import u_unsafe as U
 from .rules import s_state as S
 from .rules import p_primitive as P
+from .rules import b_bits as B
 
 
 def _n1(an, rep):
@@ -33,6 +34,16 @@ PROPS = {
                         "not decided: wall-clock and heap budgets, stack depth of recursive decoders",
                         "allow-listed sites rest on the invariants named in their reason lines (checked by packs P/R/T)"],
         "trusted_base": MIR_TB,
+    },
+    "C11": {
+        "level": "proof",
+        "rules": [B.varints, P.output_methods, P.input_methods, P.sources_agree],
+        "explanation": "Exact bit-level abstract interpretation (GF(2)-affine bit vectors over the MIR of the four varint "
+                       "routines) for all 2^32 inputs at once: byte layout, minimal length, continuation bits (B1), zig-zag "
+                       "(B2, B4), reader (B3), read . write = id for both signednesses (B5); the routines are provided trait "
+                       "methods that no sink/source overrides (P1, P3) and the sources deliver the same bytes (P4).",
+        "assumptions": ["MIR semantics of shift / mask / cast / compare as implemented in py/vf/bitai.py"],
+        "trusted_base": MIR_TB + ["py/vf/bitai.py transfer functions"],
     },
     "C15": {
         "level": "other",
